@@ -71,6 +71,8 @@ class NodeConn(object):
         self.queued = []             # frames held while the node is stalled
         self.use_log = []            # (seq, keyspace) accepted USE statements
         self.options_seen = 0
+        self.accepted_seq = node.cluster.sim.nlog
+        self.accepted_t = node.cluster.sim.vnow()
 
     # transport callbacks ------------------------------------------------
     def on_data(self, conn, data):
